@@ -1163,3 +1163,4 @@ func c05Round4(c *Ctx) {
 	}
 	c.Floor("C05.ledger", n, 5, "state removals in the staking state package (delegations, debonding queue, …)")
 }
+
